@@ -26,7 +26,9 @@ grid lines / offset by half a fine cell (centres exactly on coarse edges) / arbi
 overlapping it partially from each side (catchment cells left of / below the coarse grid included), disjoint, or
 inside it; filled and unfilled. Voronoi: the same catchments with 1..6 points inside / outside / coincident with
 cell centres / mirrored about centres (equidistant) / bitwise duplicates / lattice coordinates / 1e30..1e150
-away; more points than cells and more cells than points. A case is non-trivial when at least one centre is
+away / pairs whose distances to a cell differ by a relative 1e-9..1e-7 with the closer point at the higher index
+(and mirrored; judged by exact rational squared distances: only differences within the rounding of the coordinates, a
+few ulp, are left unjudged); more points than cells and more cells than points. A case is non-trivial when at least one centre is
 inside the coarse grid (intersection) or always (Voronoi). Malformed stream: no overlap (ValueError), zero points
 (error), a catchment without cells (NaN weights, ValueError). Glue stream (error kinds by name, compared with the
 model's `Catchment.intersect` / `voronoiPy`): catchment not delineated (TypeError / ValueError), points argument as a
@@ -708,7 +710,8 @@ def gen_kernel_points(rng, g, n):
 def gen_points(rng, fine, cells, i):
     """Voronoi points -> (list of (x, y), tag)"""
     nr, nc, xll, yll, csz = fine["nrows"], fine["ncols"], fine["xll"], fine["yll"], fine["csz"]
-    kinds = ["inside", "outside", "coincident", "mirror", "duplicate", "lattice", "far", "mixed", "single", "many"]
+    kinds = ["inside", "outside", "coincident", "mirror", "duplicate", "lattice", "far", "mixed", "single", "many",
+             "neartie", "neartie"]
     kind = kinds[i % len(kinds)] if i < 3 * len(kinds) else rng.choice(kinds)
     npts = rng.randint(1, 6)
 
@@ -756,6 +759,21 @@ def gen_points(rng, fine, cells, i):
         pts = [far() for _ in range(max(2, npts))]
         if rng.random() < 0.3:
             pts[rng.randrange(len(pts))] = rnd_in()
+    elif kind == "neartie":
+        # two points whose distances to one catchment cell differ by a relative 1e-9 .. 1e-7 (far above rounding, far
+        # below any "tolerance" a comparison might be given): the closer one at the HIGHER index, or mirrored (control)
+        cx, cy = fcentre(rng.choice(cells))
+        d = csz * rng.choice([0.5, 1.0, 2.0, rng.uniform(0.3, 3.0)])
+        delta = 10.0 ** rng.uniform(-9.0, -7.0)
+        if rng.random() < 0.5:            # collinear with the row of centres (other cells see a near tie as well)
+            far_p, near_p = (cx - d, cy), (cx + d * (1 - delta), cy)
+        else:
+            a, b = rng.uniform(0, 2 * math.pi), rng.uniform(0, 2 * math.pi)
+            far_p = (cx + d * math.cos(a), cy + d * math.sin(a))
+            near_p = (cx + d * (1 - delta) * math.cos(b), cy + d * (1 - delta) * math.sin(b))
+        pts = [far_p, near_p] if rng.random() < 0.7 else [near_p, far_p]
+        for _ in range(rng.choice([0, 0, 1, 2])):
+            pts.insert(rng.randrange(len(pts) + 1), rnd_out())
     elif kind == "single":
         pts = [rng.choice([rnd_in, rnd_out, lattice])()]
     elif kind == "many":
@@ -776,14 +794,22 @@ def voronoi_expect(fine, cells, pts):
                 group[j] = group[k]
                 break
     counts, namb, tie = [0] * npts, 0, False
-    abs2 = (F(fine["csz"]) * MARGIN) ** 2
     nr, nc = fine["nrows"], fine["ncols"]
     for cell in cells:
         row, col = divmod(cell, nc)
         tx, ty = centre_true(fine, cell)
         d2 = [(tx - px) ** 2 + (ty - py) ** 2 for px, py in fp]
         m = min(d2)
-        near = [j for j in range(npts) if d2[j] <= m * (1 + MARGIN) + abs2]
+        # a point is a candidate only when rounding could make it the float arg-min: the float distance is within
+        # 2e of the exact one, e = 4 ulp of the coordinate magnitudes (centre = xll + csz*(k + 0.5), then dx, dy),
+        # plus 1e-15 relative for the squares, the sum and the square root — nothing like a percentage of the distance:
+        # a point closer by a relative 1e-9 is CLOSER and must win whatever its index
+        ftx, fty = abs(float(tx)), abs(float(ty))
+        dd = [math.sqrt(float(v)) for v in d2]
+        ee = [2.0 ** -50 * (ftx + abs(px) + fty + abs(py)) for px, py in pts]
+        jm = d2.index(m)
+        upper = dd[jm] * (1 + 1e-15) + 2 * ee[jm]
+        near = [j for j in range(npts) if d2[j] == m or dd[j] * (1 - 1e-15) - 2 * ee[j] <= upper]
         if len({group[j] for j in near}) == 1:
             counts[min(near)] += 1
             tie = tie or len(near) > 1
@@ -997,6 +1023,8 @@ def run_history(ctx, st, mods, gis, voronoi, rng, wrapper_ok, ih):
         for i, c in enumerate(cas):
             f_s = state_of_grid(c.flowdir)
             for j, gg in enumerate(grids):
+                if float(gg.cellsize) < f_s["csz"]:
+                    continue            # a grid finer than the catchment grid is outside the quantifier (ratios 1 to 4)
                 cells = cells_of(c, "idxcells_area_filled" if st8["filled"] else "idxcells_area")
                 r = run_intersect(ctx, st, mods, c, f_s, state_of_grid(gg), cells, st8["filled"],
                                   f"step{len(hist)}", origin="history", gobj=gg, hist=hist + [f"on catchment {i} grid {j}"])
@@ -1043,7 +1071,8 @@ def run_history(ctx, st, mods, gis, voronoi, rng, wrapper_ok, ih):
         elif m == "flowdir_cellsize":
             r = float(g.cellsize) / float(fd.cellsize)
             fd.cellsize = np.float64(float(fd.cellsize) * rng.choice([0.5, 2.0]))
-            g.cellsize = np.float64(float(fd.cellsize) * max(1.0, min(4.0, r)))
+            for gg in grids:
+                gg.cellsize = np.float64(float(fd.cellsize) * max(1.0, min(4.0, r)))
         elif m == "flowdir_swap":
             fd.nrows, fd.ncols = fd.ncols, fd.nrows            # same number of cells: every cell number stays valid
         elif m == "cells_inplace":
